@@ -2,6 +2,7 @@
 DumperBase.process_resources / row_counter / get_attr / set_attr / inc_attr / insert_hash_in_path,
 FileDumper.rows_processor / handle_datapackage, PathDumper.write_file_to_output.
 """
+from contracts.common import fn_named
 from contracts.common import (Item, mk_resource, mk_package2, resource_desc, run_spec, ghost_row, expect_no_raise_or_same, _b)
 from contracts.streams import calls, effect_names, check_no_commit_on_incomplete, tname
 
@@ -78,7 +79,7 @@ def sym_process_resources(vc):
                 if len(pr) == 1 and len(rc) == 1 and len(ys) == 1:
                     w = pr[0].objs[0]
                     okw = isinstance(w, Instance) and w.cls.name == 'ResourceWrapper' and w.attrs.get('res') is r.attrs['res'] \
-                        and isinstance(w.attrs.get('it'), GenObj) and w.attrs['it'].fn.name == 'schema_validator' and \
+                        and isinstance(w.attrs.get('it'), GenObj) and fn_named(w.attrs['it'], 'schema_validator') and \
                         w.attrs['it'].args[0] is r.attrs['res'] and w.attrs['it'].args[1] is r
                     check(it, 'rows-validated-then-processed' + tag, okw)
                     check(it, 'row-counter-wraps-the-processed-stream' + tag, rc[0].objs[0] is r and True)
@@ -424,11 +425,19 @@ def sym_rows_processor(vc):
             if 'exit_mark' in it.path.info:
                 post = it.path.events[it.path.info['exit_mark']:]
                 names = [x for x in effect_names(post) if x != 'Exhausted']
-                want = ['writer.finalize_file', 'temp_file.tell']
+                want = ['writer.finalize_file']
                 if variant != 'no-hash':
                     want += ['hash_handler']
                 want += ['temp_file.close', 'write_file_to_output', 'os.unlink']
                 check(it, 'completion-sequence' + tag, names == want)
+                # the size is read from the temp file after the writer is finalised and before the file is closed
+                pos = {}
+                for i_, e_ in enumerate(post):
+                    if e_.kind == 'Call':
+                        pos.setdefault((tname(e_), e_.method), []).append(i_)
+                tl, fz, cl = pos.get(('temp_file', 'tell'), []), pos.get(('writer', 'finalize_file'), []), pos.get(('temp_file', 'close'), [])
+                check(it, 'size-read-after-finalize-before-close' + tag, bool(tl) and bool(fz) and bool(cl) and
+                      fz[0] < tl[-1] < cl[0])
                 # recorded statistics
                 wb = [e for e in post if e.kind == 'TreeWrite' and e.node is mine and e.key == 'bytes']
                 wpb = [e for e in post if e.kind == 'TreeWrite' and e.node is dpd and e.key == 'bytes']
@@ -495,8 +504,7 @@ def sym_handle_datapackage(vc):
             tag = '[pretty=%s]' % pretty
             core = [x for x in names if x not in ('datapackage.commit',)]
             check(it, 'descriptor-written-to-temp-then-copied-then-removed' + tag,
-                  core == ['UmaskNamedTemporaryFile', 'json.dump', 'desc_temp.tell', 'desc_temp.close', 'write_file_to_output',
-                           'os.unlink'])
+                  core == ['UmaskNamedTemporaryFile', 'json.dump', 'desc_temp.close', 'write_file_to_output', 'os.unlink'])
             jd = calls(evs, target='json.dump')
             if jd:
                 check(it, 'serialises-the-package-descriptor-into-the-temp-file' + tag, jd[0].objs[0] is dpd and jd[0].objs[1] is tf)
@@ -521,7 +529,10 @@ def sym_write_file_to_output(vc):
     for hashed in (False, True):
         def thunk(it, hashed=hashed):
             d = mk_dumper(it, options={'add_filehash_to_path': True} if hashed else {})
-            check(it, 'constructor-only-creates-the-output-directory', effect_names(d.init_events) == ['os.makedirs'])
+            mk0 = calls(d.init_events, target='os.makedirs')
+            check(it, 'constructor-does-nothing-but-ensure-the-output-directory', set(effect_names(d.init_events)) <= {'os.makedirs'})
+            # (creating out_path here is redundant -- every copy ensures its own parent -- so it is allowed, not required)
+            check(it, 'constructor-creates-no-other-directory', z3.And(*[term(e.objs[0], StrS) == d.out.t for e in mk0]) if mk0 else True)
             fn, path = sym_str(it, 'filename'), sym_str(it, 'relpath')
             n0 = len(it.path.events)
             r = it.call(it.lib.getattr_(it, d, 'write_file_to_output'), [fn, path])
@@ -536,15 +547,17 @@ def sym_write_file_to_output(vc):
                 check(it, 'copy-skipped-only-if-destination-exists' + tag, z3.Implies(z3.Not(ex), _b(len(cp) == 1)))
                 check(it, 'existing-hashed-file-not-rewritten' + tag, z3.Implies(ex, _b(len(cp) == 0)))
             else:
-                check(it, 'trace-makedirs-then-copy' + tag, names == ['os.makedirs', 'shutil.copy'])
+                check(it, 'trace-is-ensure-directory-then-copy' + tag, [n for n in names if n != 'os.makedirs'] == ['shutil.copy']
+                      and names[-1:] == ['shutil.copy'])
             if cp:
                 check(it, 'copies-to-out_path/path' + tag, z3.And(term(cp[0].objs[0], StrS) == fn.t, term(cp[0].objs[1], StrS) == dest))
                 mk = calls(evs, target='os.makedirs')
                 dn = z3.Function('os.path.dirname', StrS, StrS)
-                check(it, 'parent-directory-created-before-copy' + tag, len(mk) == 1 and _b(True) and
-                      names.index('os.makedirs') < names.index('shutil.copy'))
-                if mk:
-                    check(it, 'creates-the-parent-of-the-destination' + tag, term(mk[0].objs[0], StrS) == dn(dest))
+                before = evs[:evs.index(cp[0])]
+                mkb = calls(before, target='os.makedirs')
+                # at the time of the copy the parent directory exists: created just before, or seen to exist already
+                check(it, 'parent-directory-ensured-before-copy' + tag,
+                      z3.Or(L.FS_ISDIR(dn(dest)), *[term(e.objs[0], StrS) == dn(dest) for e in mkb]))
             cover(it, 'reachable' + tag)
         vc.explore(fk, thunk)
 
@@ -637,8 +650,8 @@ def sym_zip_dumper(vc):
         ie = d.init_events
         check(it, 'constructor-opens-archive-then-zipfile-on-it', len(ie) == 2 and ie[0].target == 'open' and
               term(ie[0].objs[0], StrS).eq(d.out.t) and ie[0].args[1] == 'wb' and
-              'zipfile.ZipFile' in repr(ie[1].target) and ie[1].objs[0] is d.attrs.get('out_file') and ie[1].args[1] == 'w')
-        check(it, 'keeps-both-handles', d.attrs.get('out_file') is ie[0].result and d.attrs.get('zip_file') is not None)
+              'zipfile.ZipFile' in repr(ie[1].target) and ie[1].objs[0] is d.attrs['out_file'] and ie[1].args[1] == 'w')
+        check(it, 'keeps-both-handles', d.attrs['out_file'] is ie[0].result and d.attrs['zip_file'] is not None)
         zf, of = d.attrs['zip_file'], d.attrs['out_file']
         fn, path = sym_str(it, 'filename'), sym_str(it, 'relpath')
         n0 = len(it.path.events)
